@@ -181,6 +181,13 @@ class Contract:
                 legit = (wh == 0 and off < 0) or wh not in (0, 1, 2)
                 if not legit:
                     self.fail('seek-raises', f'seek({off},{wh}) at {pos} raised {name}', 'a position', name)
+                # a call that was refused has not moved the file
+                try:
+                    after = self.tell()
+                except Exception:
+                    after = None
+                if after != pos:
+                    self.fail('seek-error-moved', f'seek({off},{wh}) at {pos} raised {name} and left the position at {after}', pos, after)
                 return
             self.results.append('i:%x' % p if isinstance(p, int) and p >= 0 else f'i:{p}')
             after = self.tell()
